@@ -1,5 +1,5 @@
 #!/usr/bin/env python3
-"""Writes sa/param_names.json sa/field_names.json (name, type, publicness of every field) and sa/field_order.json (declaration order of the fields of every type without a layout repr): for every function of the crate, its parameter names by position, as they are in the tree this is
+"""Writes sa/param_names.json sa/adt_names.json (the crate-private types and their shapes), sa/field_names.json (name, type, publicness of every field) and sa/field_order.json (declaration order of the fields of every type without a layout repr): for every function of the crate, its parameter names by position, as they are in the tree this is
 run on. The file is a frozen reference (see facts.canonical_param_names); regenerate it only deliberately, on a tree whose names
 the rules' references were written against. Usage: PG_REPO=<tree> python3 sa/gen_param_names.py"""
 import json
@@ -10,7 +10,7 @@ import facts as F
 
 if os.path.exists(F.PARAM_NAMES_FILE):
     os.rename(F.PARAM_NAMES_FILE, F.PARAM_NAMES_FILE + ".old")
-for f_ in (F.FIELD_ORDER_FILE, F.FIELD_NAMES_FILE):
+for f_ in (F.FIELD_ORDER_FILE, F.FIELD_NAMES_FILE, F.ADT_NAMES_FILE):
     if os.path.exists(f_):
         os.remove(f_)
 out = {}
@@ -49,6 +49,14 @@ for feature in ("", "uuid"):
         if vs:
             fn[a["path"]] = vs
 json.dump(fn, open(F.FIELD_NAMES_FILE, "w"), indent=0, sort_keys=True)
+an = {}
+for feature in ("", "uuid"):
+    fx = F.Facts(F.extract(feature=feature)[0])
+    for a in fx.all_adts("proguard"):
+        if not a.get("reachable_pub"):
+            an[a["path"]] = {"shape": F._adt_shape(a)}
+json.dump(an, open(F.ADT_NAMES_FILE, "w"), indent=0, sort_keys=True)
+print("%d crate-private types" % len(an))
 print("%d types with named fields" % len(fn))
 print("%d types with an ordered field list" % len(fo))
 if os.path.exists(F.PARAM_NAMES_FILE + ".old"):
